@@ -381,7 +381,8 @@ class RegexPatternProvider(MorphingProvider):
 
             try:
                 return re_compile(data, flags)
-            except (re.error, OverflowError) as e:  # 'a{99999999999999999999}' raises OverflowError
+            # 'a{99999999999999999999}' raises OverflowError, '(?a)(?u)x' (incompatible flags) raises ValueError
+            except (re.error, OverflowError, ValueError) as e:
                 raise ValueLoadError(str(e), data)
 
         return regex_loader
